@@ -246,6 +246,12 @@ func (e *Engine) loadContractFile(path, pkgShort string) error {
 			cur = nil
 		case strings.HasPrefix(t, "ghostvar "):
 			w := strings.Fields(t)
+			if len(w) == 4 && w[3] == "aux" {
+				// auxiliary variable: names an intermediate value inside one function's contract;
+				// it carries no state between functions and is exempt from callers' frames
+				e.auxGhost[w[1]] = true
+				w = w[:3]
+			}
 			if len(w) != 3 {
 				return fmt.Errorf("%s:%d: ghostvar needs name and sort", path, l.line)
 			}
